@@ -96,7 +96,10 @@ def tlc_mc(module, cfg=None, workers=3, timeout=900, extra=(), env=None, simulat
     cmd += list(extra) + [module + '.tla']
     t0 = time.time()
     try:
-        rc, out = sh(cmd, timeout=timeout, cwd=SPEC, env=env)
+        for attempt in range(3):
+            rc, out = sh(cmd, timeout=timeout, cwd=SPEC, env=env)
+            if rc not in (-9, 137): break           # killed from outside (memory pressure): wait and run again
+            time.sleep(30 * (attempt + 1))
     except subprocess.TimeoutExpired:
         shutil.rmtree(md, ignore_errors=True)
         raise Infra('TLC timeout on %s' % cfg)
@@ -217,7 +220,10 @@ def validate_trace(trace, work_dir, tracecfg='Trace'):
     module = tracecfg + '.tla' if os.path.exists('%s/%s.tla' % (SPEC, tracecfg)) else 'Trace.tla'
     cmd = [TLC, '-workers', '1', '-metadir', md, '-config', tracecfg + '.cfg', module]
     try:
-        rc, out = sh(cmd, timeout=3000, cwd=SPEC, env={'TRACE': trace, 'TLC_XMX': '-Xmx2g'})
+        for attempt in range(3):
+            rc, out = sh(cmd, timeout=3000, cwd=SPEC, env={'TRACE': trace, 'TLC_XMX': '-Xmx2g'})
+            if rc not in (-9, 137): break           # killed from outside (memory pressure of a loaded machine): wait and run again
+            time.sleep(20 * (attempt + 1)); shutil.rmtree(md, ignore_errors=True)
     except subprocess.TimeoutExpired:
         return {'dir': work_dir, 'status': 'infra', 'detail': 'TLC timeout', 'events': nev}
     shutil.rmtree(md, ignore_errors=True)
